@@ -97,7 +97,7 @@ func truncStreams(c *ev.Ctx) []tstream {
 	}
 	nsmall := 12
 	if thorough(c) {
-		nsmall = 40
+		nsmall = 120
 	}
 	checks := []byte{xz.CRC32, xz.CRC64, xz.SHA256, 0}
 	// library-written .xz, small, multi-block
@@ -220,7 +220,7 @@ func truncStreams(c *ev.Ctx) []tstream {
 	}
 	// long streams: cuts enumerated in windows around structure boundaries
 	if thorough(c) {
-		for i := 0; i < 12; i++ {
+		for i := 0; i < 30; i++ {
 			data := gen.Data(r, []string{"altseg", "text", "random"}[i%3], r.Range(100000, 300000))
 			b := libWriteXZ(xz.WriterConfig{DictCap: 65536, BlockSize: int64(r.Pick(0, 50000))}, data)
 			add(tstream{ID: fmt.Sprintf("longxz%d", i), Format: "xz", B: b, Content: data, Bounds: xzBounds(b), Feat: "long library xz"})
